@@ -11,5 +11,12 @@ def harness():
     return vlib.build_exe('h_readers', [vlib.ROOT + '/harness/h_readers.cpp'] + srcs)
 
 
+def harness_vg():
+    """The same harness without sanitizers, for valgrind/memcheck (which also sees inside libstdc++ and
+    reports uses of uninitialised values)."""
+    srcs = sorted(glob.glob(vlib.REPO + '/src/*.cpp'))
+    return vlib.build_exe('h_readers_vg', [vlib.ROOT + '/harness/h_readers.cpp'] + srcs, flags=['-O1', '-g'])
+
+
 def driver():
     return vlib.ocaml_driver('readers', MODEL_VO)
